@@ -1,25 +1,1004 @@
-//! C16 — not built yet (stub).
+//! C16 — search never panics on any request (claimed level: partial).
+//!
+//! Finder (implementation alone): every request runs in its own thread under `catch_unwind`
+//! with a 5 s watchdog, debug assertions on; outcome classes ok | error | panic | hang;
+//! panic/hang ⇒ `s.fail(sig, …)` with a signature derived from the panic site (file +
+//! message class, never the line number) and, for the two known sites, the input class.
+//! Correspondence (model = `Drv/C16`): cursor decode ok/error (+ decoded fields of real
+//! cursors, hex round trip), script compile ok/error (+ value of constant scripts),
+//! minimum_should_match percentage ok/error, and "the term_weights assertion fires iff the
+//! planner model says one key reaches two leaves".
+//! Only the library API is driven: a panic under `extern "C"` aborts the process, so the FFI
+//! entry point is not part of this stream.
+use crate::idx;
 use crate::proto::Driver;
 use crate::rng::Rng;
 use crate::summary::Summary;
+use crate::util::scratch;
 use crate::{Prop, Tier};
-use serde_json::{json, Value};
+use searchlite_core::api::types::SearchRequest;
+use searchlite_core::api::{Index, IndexReader};
+use serde_json::{json, Map, Value};
+use std::cell::RefCell;
+use std::sync::{mpsc, Arc, Once};
+use std::time::Duration;
 
-pub struct Stub;
-pub static P: Stub = Stub;
+#[path = "c16_gen.rs"]
+mod gen;
 
-impl Prop for Stub {
+pub struct C16;
+pub static P: C16 = C16;
+
+const WATCHDOG: Duration = Duration::from_secs(5);
+
+// ---------------------------------------------------------------- outcome of one request
+
+#[derive(Clone, Debug)]
+pub enum Out {
+  Ok(Value),
+  /// the request text is not a `SearchRequest` (serde)
+  Reject(String),
+  Err(String),
+  Panic { file: String, line: u32, msg: String },
+  Hang,
+}
+
+impl Out {
+  pub fn class(&self) -> &'static str {
+    match self {
+      Out::Ok(_) => "ok",
+      Out::Reject(_) | Out::Err(_) => "error",
+      Out::Panic { .. } => "panic",
+      Out::Hang => "hang",
+    }
+  }
+  fn brief(&self) -> Value {
+    match self {
+      Out::Ok(v) => json!({"ok": {"hits": v["hits"].as_array().map(|a| a.len()), "total": v["total_hits_estimate"]}}),
+      Out::Reject(e) => json!({"reject": e}),
+      Out::Err(e) => json!({"error": e}),
+      Out::Panic { file, line, msg } => json!({"panic": {"file": file, "line": line, "msg": msg}}),
+      Out::Hang => json!({"hang": format!("no answer within {} s", WATCHDOG.as_secs())}),
+    }
+  }
+}
+
+thread_local! {
+  static LAST_PANIC: RefCell<Option<(String, u32, String)>> = const { RefCell::new(None) };
+}
+
+/// replaces main's silent hook by one that is just as silent but remembers the panic site
+fn install_hook() {
+  static ONCE: Once = Once::new();
+  ONCE.call_once(|| {
+    std::panic::set_hook(Box::new(|info| {
+      let (file, line) = info.location().map(|l| (l.file().to_string(), l.line())).unwrap_or_default();
+      let msg = if let Some(s) = info.payload().downcast_ref::<&str>() {
+        s.to_string()
+      } else if let Some(s) = info.payload().downcast_ref::<String>() {
+        s.clone()
+      } else {
+        "panic".to_string()
+      };
+      LAST_PANIC.with(|c| *c.borrow_mut() = Some((file, line, msg)));
+    }));
+  });
+}
+
+/// deserialise + search + serialise one request text (runs inside the worker thread)
+fn execute(reader: &IndexReader, text: &str) -> Out {
+  LAST_PANIC.with(|c| *c.borrow_mut() = None);
+  let r = std::panic::catch_unwind(std::panic::AssertUnwindSafe(|| {
+    let req: SearchRequest = match serde_json::from_str(text) {
+      Ok(r) => r,
+      Err(e) => return Out::Reject(e.to_string()),
+    };
+    match reader.search(&req) {
+      Ok(res) => Out::Ok(serde_json::to_value(&res).unwrap_or(Value::Null)),
+      Err(e) => Out::Err(format!("{e:#}")),
+    }
+  }));
+  match r {
+    Ok(o) => o,
+    Err(_) => {
+      let (file, line, msg) = LAST_PANIC.with(|c| c.borrow_mut().take()).unwrap_or_default();
+      Out::Panic { file, line, msg }
+    }
+  }
+}
+
+/// `IndexReader` is not `Sync`: one worker thread per case owns the reader (re-opened after
+/// a panic); the case thread is the watchdog.  A worker that hangs is abandoned.
+struct Worker {
+  tx: mpsc::Sender<String>,
+  rx: mpsc::Receiver<Out>,
+}
+
+fn spawn_worker(index: Arc<Index>) -> Worker {
+  install_hook();
+  let (tx, req_rx) = mpsc::channel::<String>();
+  let (out_tx, rx) = mpsc::channel::<Out>();
+  let _ = std::thread::Builder::new().stack_size(4 << 20).spawn(move || {
+    let mut reader = index.reader().ok();
+    while let Ok(text) = req_rx.recv() {
+      if reader.is_none() {
+        reader = index.reader().ok();
+      }
+      let out = match &reader {
+        Some(r) => execute(r, &text),
+        None => Out::Err("harness: reader could not be opened".into()),
+      };
+      if matches!(out, Out::Panic { .. }) {
+        reader = None;
+      }
+      if out_tx.send(out).is_err() {
+        break;
+      }
+    }
+  });
+  Worker { tx, rx }
+}
+
+pub fn run_text(b: &mut Built, text: &str) -> Out {
+  // debugging aid for process aborts (allocation failure, stack overflow): with
+  // VERIF_C16_TRACE=<prefix> every thread keeps its current request in <prefix>.<thread>
+  if let Ok(prefix) = std::env::var("VERIF_C16_TRACE") {
+    let _ = std::fs::write(format!("{prefix}.{:?}", std::thread::current().id()), text);
+  }
+  if b.worker.tx.send(text.to_string()).is_err() {
+    b.worker = spawn_worker(b.index.clone());
+    let _ = b.worker.tx.send(text.to_string());
+  }
+  match b.worker.rx.recv_timeout(WATCHDOG) {
+    Ok(o) => o,
+    Err(_) => {
+      // confirm on a fresh worker (a loaded machine must not produce a hang verdict); the
+      // first thread is abandoned
+      b.worker = spawn_worker(b.index.clone());
+      let _ = b.worker.tx.send(text.to_string());
+      match b.worker.rx.recv_timeout(WATCHDOG) {
+        Ok(o) => o,
+        Err(_) => {
+          b.worker = spawn_worker(b.index.clone());
+          Out::Hang
+        }
+      }
+    }
+  }
+}
+
+fn slug(s: &str, max: usize) -> String {
+  let mut out = String::new();
+  let mut last_dash = true;
+  for ch in s.chars() {
+    let c = if ch.is_ascii_digit() { 'N' } else { ch.to_ascii_lowercase() };
+    if c.is_ascii_alphanumeric() {
+      if !(c == 'N' && out.ends_with('N')) {
+        out.push(c);
+      }
+      last_dash = false;
+    } else if !last_dash {
+      out.push('-');
+      last_dash = true;
+    }
+    if out.len() >= max {
+      break;
+    }
+  }
+  out.trim_matches('-').to_string()
+}
+
+fn file_class(file: &str) -> String {
+  let f = file.replace('\\', "/");
+  let rel = if let Some(i) = f.find("searchlite-core/src/") {
+    f[i + "searchlite-core/src/".len()..].to_string()
+  } else {
+    let parts: Vec<&str> = f.split('/').collect();
+    parts[parts.len().saturating_sub(3)..].join("/")
+  };
+  slug(rel.trim_end_matches(".rs"), 40)
+}
+
+/// is the request on the score fast path (no sort, or `_score` descending only)?
+fn score_fast_path(req: &Value) -> bool {
+  match req.get("sort").and_then(|s| s.as_array()) {
+    None => true,
+    Some(a) if a.is_empty() => true,
+    Some(a) => a.len() == 1 && a[0]["field"] == json!("_score") && a[0].get("order").map(|o| o != &json!("asc")).unwrap_or(true),
+  }
+}
+
+/// stable signature of a panic: known sites by message + input class, everything else by
+/// file and message class (text before the first data-carrying punctuation; digits folded)
+pub fn panic_sig(file: &str, msg: &str, req: Option<&Value>) -> String {
+  if msg.contains("Inconsistent leaf for term key") {
+    return "panic.inconsistent-leaf".into();
+  }
+  let cursor_non_ascii = req.and_then(|r| r.get("cursor")).and_then(|c| c.as_str()).map(|c| !c.is_ascii()).unwrap_or(false);
+  if file.ends_with("api/reader.rs") && msg.contains("Utf8Error") && msg.contains("unwrap") && cursor_non_ascii {
+    return if req.map(score_fast_path).unwrap_or(true) {
+      "panic.cursor-decode-non-ascii".into()
+    } else {
+      "panic.sort-cursor-hex-decode-non-ascii".into()
+    };
+  }
+  let msg = msg.strip_prefix("internal error: entered unreachable code: ").unwrap_or(msg);
+  let head: String = msg.split(|c| matches!(c, ':' | ';' | '`' | '\'' | '(' | '"')).next().unwrap_or("").to_string();
+  format!("panic.{}.{}", file_class(file), slug(&head, 64))
+}
+
+// ---------------------------------------------------------------- index of a case
+
+pub struct Built {
+  _dir: tempfile::TempDir,
+  index: Arc<Index>,
+  worker: Worker,
+  pub segments: usize,
+  pub schema: searchlite_core::Schema,
+}
+
+pub fn build(case: &Value) -> Result<Built, String> {
+  let dir = scratch();
+  let mem = case["mem"].as_bool().unwrap_or(true);
+  let index = idx::create(dir.path(), &case["schema"], mem)?;
+  let mut segments = 0;
+  for c in case["commits"].as_array().cloned().unwrap_or_default() {
+    let docs = c["add"].as_array().cloned().unwrap_or_default();
+    if !docs.is_empty() {
+      idx::add_commit(&index, &docs)?;
+      segments += 1;
+    }
+    let dels: Vec<String> = c["delete"].as_array().map(|a| a.iter().filter_map(|x| x.as_str().map(|s| s.to_string())).collect()).unwrap_or_default();
+    if !dels.is_empty() {
+      idx::delete_commit(&index, &dels)?;
+    }
+  }
+  index.reader().map_err(|e| format!("reader: {e}"))?;
+  let schema = idx::schema(&case["schema"])?;
+  let index = Arc::new(index);
+  let worker = spawn_worker(index.clone());
+  Ok(Built { _dir: dir, index, worker, segments, schema })
+}
+
+/// the case reduced to one request (what a failure is reported and replayed with)
+fn single(case: &Value, item: &Value) -> Value {
+  let mut c = case.clone();
+  c["items"] = json!([item]);
+  c
+}
+
+fn bytes_json(s: &str) -> Value {
+  Value::Array(s.bytes().map(|b| json!(b)).collect())
+}
+
+fn chars_json(s: &str) -> Value {
+  Value::Array(s.chars().map(|c| json!(c as u32)).collect())
+}
+
+// ---------------------------------------------------------------- finder shared by all streams
+
+/// records the case and, for panic / hang, the failure; returns the class
+fn judge(s: &mut Summary, case: &Value, item: &Value, req: Option<&Value>, out: &Out, stream: &str) -> &'static str {
+  let sub = single(case, item);
+  let reached = !matches!(out, Out::Reject(_));
+  s.case(&sub, reached);
+  s.count(&format!("{stream}.{}", match out {
+    Out::Reject(_) => "rejected-by-serde",
+    o => o.class(),
+  }));
+  match out {
+    Out::Panic { file, msg, .. } => {
+      let sig = panic_sig(file, msg, req);
+      s.fail(&sig, "IndexReader::search panicked", &sub, out.brief());
+    }
+    Out::Hang => {
+      s.fail("hang.search", "IndexReader::search did not return within 5 s (twice, the second time on a fresh reader)", &sub, out.brief());
+    }
+    _ => {}
+  }
+  out.class()
+}
+
+fn with_defaults(mut r: Value) -> Value {
+  if r.get("return_stored").is_none() {
+    r["return_stored"] = json!(false);
+  }
+  if r.get("highlight_field").is_none() {
+    r["highlight_field"] = Value::Null;
+  }
+  if r.get("limit").is_none() {
+    r["limit"] = json!(10);
+  }
+  r
+}
+
+// ---------------------------------------------------------------- stream: plain / mutated requests
+
+fn run_req_item(b: &mut Built, case: &Value, item: &Value, s: &mut Summary) {
+  let (text, reqv): (String, Option<Value>) = match item.get("raw").and_then(|r| r.as_str()) {
+    Some(raw) => (raw.to_string(), serde_json::from_str(raw).ok()),
+    None => (item["req"].to_string(), Some(item["req"].clone())),
+  };
+  let out = run_text(b, &text);
+  let stream = item["stream"].as_str().unwrap_or("req");
+  judge(s, case, item, reqv.as_ref(), &out, stream);
+  if let (Out::Err(e), Some(_)) = (&out, &reqv) {
+    // which validation answered (input distribution only)
+    let head: String = e.split(|c| matches!(c, ':' | '`')).next().unwrap_or("").to_string();
+    s.count(&format!("error.{}", slug(&head, 32)));
+  }
+  if let Some(r) = &reqv {
+    for k in ["aggs", "sort", "filter", "fuzzy", "highlight", "collapse", "suggest", "rescore", "cursor", "explain"] {
+      if r.get(k).map(|v| !v.is_null()).unwrap_or(false) {
+        s.count(&format!("feature.{k}"));
+      }
+    }
+  }
+}
+
+// ---------------------------------------------------------------- stream: cursors
+
+fn unhex_opt(s: &str) -> Option<Vec<u8>> {
+  if s.len() % 2 != 0 || !s.is_ascii() {
+    return None;
+  }
+  (0..s.len() / 2).map(|i| u8::from_str_radix(&s[2 * i..2 * i + 2], 16).ok()).collect()
+}
+
+fn apply_recipe(recipe: &Value, next: Option<&str>) -> Option<String> {
+  if let Some(l) = recipe.get("lit").and_then(|l| l.as_str()) {
+    return Some(l.to_string());
+  }
+  let mut cs: Vec<char> = next?.chars().collect();
+  if let Some(set) = recipe.get("set").and_then(|x| x.as_array()) {
+    let pos = set[0].as_u64().unwrap_or(0) as usize;
+    let ch: Vec<char> = set[1].as_str().unwrap_or("0").chars().collect();
+    if !cs.is_empty() {
+      let p = pos % cs.len();
+      cs.splice(p..p + 1, ch);
+    }
+  }
+  if let Some(t) = recipe.get("truncate").and_then(|x| x.as_u64()) {
+    cs.truncate((t as usize).min(cs.len()));
+  }
+  let mut out: String = cs.into_iter().collect();
+  if let Some(a) = recipe.get("append").and_then(|x| x.as_str()) {
+    out.push_str(a);
+  }
+  if recipe.get("upper").and_then(|x| x.as_bool()).unwrap_or(false) {
+    out = out.to_uppercase();
+  }
+  Some(out)
+}
+
+fn run_cursor_item(b: &mut Built, drv: &mut Driver, case: &Value, item: &Value, s: &mut Summary) {
+  let base = with_defaults(item["base"].clone());
+  let fast = score_fast_path(&base);
+  // the real cursor of page 1 of this request, and the manifest generation (taken from a
+  // score cursor of a match_all request: bytes 1..5)
+  let next: Option<String> = match run_text(b, &base.to_string()) {
+    Out::Ok(v) => v["next_cursor"].as_str().map(|x| x.to_string()),
+    _ => None,
+  };
+  let gen: Option<u64> = match run_text(b, &json!({"query": {"type": "match_all"}, "limit": 1, "return_stored": false, "highlight_field": null}).to_string()) {
+    Out::Ok(v) => v["next_cursor"].as_str().and_then(unhex_opt).filter(|x| x.len() == 21).map(|x| u32::from_be_bytes([x[1], x[2], x[3], x[4]]) as u64),
+    _ => None,
+  };
+  let recipe = &item["recipe"];
+  let Some(cursor) = apply_recipe(recipe, next.as_deref()) else {
+    s.count("cursor.skipped-no-next-page");
+    return;
+  };
+  let unmodified = recipe.get("from_next").is_some() && recipe.as_object().map(|m| m.len() == 1).unwrap_or(false);
+  let mut req = base.clone();
+  req["cursor"] = json!(cursor);
+  let out = run_text(b, &req.to_string());
+  let stream = if fast { "cursor.fast" } else { "cursor.sort" };
+  let mut it = item.clone();
+  it["resolved_cursor"] = json!(cursor);
+  let cls = judge(s, case, &it, Some(&req), &out, stream);
+  if !cursor.is_ascii() {
+    s.count("cursor.non-ascii");
+  }
+  if unmodified {
+    s.count("cursor.real-next-cursor");
+  }
+  // ---- correspondence with Core/CursorBytes
+  let m = drv.call("C16", json!({"op": "cursor", "bytes": bytes_json(&cursor), "gen": gen.unwrap_or(0)}));
+  let sub = single(case, &it);
+  if m["ok"] != json!(true) {
+    s.disagree("cursor.driver", &sub, out.brief(), m);
+    return;
+  }
+  if let Out::Panic { file, msg, .. } = &out {
+    let sig = panic_sig(file, msg, Some(&req));
+    if sig.contains("decode-non-ascii") {
+      let predicted = if fast { &m["legacy_fast"] } else { &m["legacy_hex"] };
+      if predicted != &json!("panic") {
+        s.disagree("cursor.legacy-model-does-not-predict-this-panic", &sub, out.brief(), m.clone());
+      }
+    }
+    return;
+  }
+  if cls == "hang" {
+    return;
+  }
+  // the mechanism model of the unchanged decoder says "panic" but the code answered: either
+  // the decoder was repaired or the legacy model is wrong — the canonical witness decides
+  let predicted = if fast { &m["legacy_fast"] } else { &m["legacy_hex"] };
+  if predicted == &json!("panic") {
+    let mut probe = base.clone();
+    probe["cursor"] = json!(format!("a{}b", "é".repeat(20)));
+    let still_panics = matches!(run_text(b, &probe.to_string()), Out::Panic { ref msg, .. } if msg.contains("Utf8Error"));
+    if still_panics {
+      s.disagree("cursor.legacy-model-predicts-a-panic-that-did-not-happen", &sub, out.brief(), m.clone());
+    } else {
+      s.count("cursor.decoder-repaired-in-code");
+    }
+  }
+  if fast {
+    let Some(_) = gen else {
+      s.count("cursor.generation-unknown");
+      return;
+    };
+    let (p, np) = (&m["fast_plus"], &m["fast_noplus"]);
+    let model_ok = p["cls"] == json!("ok") || np["cls"] == json!("ok");
+    let model_err = p["cls"] == json!("error") || np["cls"] == json!("error");
+    if p["cls"] != np["cls"] {
+      s.count("cursor.sign-rule-matters");
+    }
+    if cls == "ok" && !model_ok {
+      s.disagree("cursor.fast.accepted-but-model-rejects", &sub, out.brief(), m.clone());
+    } else if cls == "error" && !model_err {
+      // decodable, right generation: only "not in this result set" may still reject it
+      if unmodified {
+        s.disagree("cursor.fast.real-cursor-rejected", &sub, out.brief(), m.clone());
+      } else {
+        s.count("cursor.fast.decoded-then-rejected");
+      }
+    }
+    if unmodified {
+      let want = base["limit"].as_u64().unwrap_or(0);
+      if p["cls"] != json!("ok") || p["returned"].as_u64() != Some(want) || p["generation"].as_u64() != gen {
+        s.disagree("cursor.fast.decoded-fields", &sub, json!({"cursor": cursor, "limit": want, "generation": gen}), m.clone());
+      }
+    }
+  } else {
+    let (p, np) = (&m["hex_plus"], &m["hex_noplus"]);
+    let model_ok = p["cls"] == json!("ok") || np["cls"] == json!("ok");
+    if cls == "ok" && !model_ok {
+      s.disagree("cursor.sort.accepted-but-model-rejects", &sub, out.brief(), m.clone());
+    }
+    if cls == "ok" {
+      // what was accepted must be the hex of a JSON payload of version 2
+      let bytes: Vec<u8> = p["bytes"].as_array().or(np["bytes"].as_array()).map(|a| a.iter().map(|x| x.as_u64().unwrap_or(0) as u8).collect()).unwrap_or_default();
+      let parsed: Option<Value> = serde_json::from_slice(&bytes).ok();
+      if parsed.as_ref().map(|v| v["version"] != json!(2)).unwrap_or(true) {
+        s.disagree("cursor.sort.accepted-payload", &sub, out.brief(), m.clone());
+      }
+    }
+    if unmodified {
+      let same = unhex_opt(&cursor).map(|u| Value::Array(u.iter().map(|b| json!(b)).collect())) == Some(p["bytes"].clone());
+      if cls != "ok" || !same {
+        s.disagree("cursor.sort.real-cursor", &sub, out.brief(), m.clone());
+      }
+    }
+  }
+}
+
+// ---------------------------------------------------------------- stream: script_score
+
+fn run_script_item(b: &mut Built, drv: &mut Driver, case: &Value, item: &Value, live: usize, s: &mut Summary) {
+  let script = item["script"].as_str().unwrap_or("").to_string();
+  let mut q = json!({"type": "script_score", "query": {"type": "match_all"}, "script": script});
+  let params: Map<String, Value> = item["params"].as_object().cloned().unwrap_or_default();
+  if !params.is_empty() {
+    q["params"] = Value::Object(params.clone());
+  }
+  let req = json!({"query": q, "limit": 50, "return_stored": false, "highlight_field": null});
+  let out = run_text(b, &req.to_string());
+  let cls = judge(s, case, item, Some(&req), &out, "script");
+  if cls == "panic" || cls == "hang" {
+    return;
+  }
+  // ---- correspondence with Core/Script (names in BTreeMap order = serde_json::Map order)
+  let names: Vec<Value> = params.keys().map(|k| chars_json(k)).collect();
+  let values: Vec<Value> = params.values().cloned().collect();
+  let m = drv.call(
+    "C16",
+    json!({"op": "script", "chars": chars_json(&script), "params": names, "param_values": values,
+           "fast": [chars_json("n"), chars_json("x")], "fast_values": [0.0, 0.0], "score": 1.0}),
+  );
+  let sub = single(case, item);
+  if m["ok"] != json!(true) {
+    s.disagree("script.driver", &sub, out.brief(), m);
+    return;
+  }
+  let model_cls = m["cls"].as_str().unwrap_or("?");
+  s.count(&format!("script.model-{model_cls}"));
+  if m["wf"] == json!(true) {
+    s.count("script.well-formed");
+  }
+  if model_cls != cls {
+    s.disagree("script.compile-class", &sub, out.brief(), m.clone());
+    return;
+  }
+  if m["eval_panic"] == json!(true) || (m["wf"] == json!(true) && model_cls == "ok" && m["depth"] != json!(1)) {
+    s.disagree("script.model-invariant", &sub, out.brief(), m.clone());
+  }
+  // value: only for scripts that read no document field (`_score` of match_all is 1)
+  let reads_field = m["fields"].as_array().map(|a| !a.is_empty()).unwrap_or(true);
+  if let (Out::Ok(v), false, true) = (&out, reads_field, live > 0) {
+    let hits = v["hits"].as_array().cloned().unwrap_or_default();
+    let want: Option<f32> = m["eval_bits"].as_u64().map(|b| f64::from_bits(b) as f32).filter(|x| x.is_finite());
+    match want {
+      None => {
+        s.count("script.value-dropped");
+        if !hits.is_empty() {
+          s.disagree("script.value-should-drop-hits", &sub, out.brief(), m.clone());
+        }
+      }
+      Some(w) => {
+        s.count("script.value-compared");
+        let bad = hits.is_empty() || hits.iter().any(|h| !idx::close(h["score"].as_f64().unwrap_or(f64::NAN), w as f64, 2e-5));
+        if bad {
+          s.disagree("script.value", &sub, json!({"scores": hits.iter().map(|h| h["score"].clone()).collect::<Vec<_>>()}), m.clone());
+        }
+      }
+    }
+  }
+}
+
+// ---------------------------------------------------------------- stream: minimum_should_match
+
+/// is the percentage body inside the syntax the model parses (plain decimals), or certainly
+/// outside every `f32` literal (so that both sides must reject it)?
+fn msm_modelled(body: &str) -> bool {
+  let plain = body.chars().all(|c| c.is_ascii_digit() || c == '.');
+  if plain {
+    // stay away from the rounding edge at 100 (f32) — more than 4 decimals are not generated
+    return body.len() <= 9;
+  }
+  body.chars().any(|c| !(c.is_ascii_digit() || matches!(c, '.' | '+' | '-' | 'e' | 'E' | '_') || "infatyINFATY".contains(c)))
+}
+
+fn run_msm_item(b: &mut Built, drv: &mut Driver, case: &Value, item: &Value, s: &mut Summary) {
+  let text = item["text"].as_str().unwrap_or("").to_string();
+  let mut q = json!({"type": "multi_match", "query": text, "fields": ["body"], "minimum_should_match": item["spec"].clone()});
+  if let Some(op) = item["op"].as_str() {
+    q["operator"] = json!(op);
+  }
+  let req = json!({"query": q, "limit": 10, "return_stored": false, "highlight_field": null});
+  let out = run_text(b, &req.to_string());
+  let cls = judge(s, case, item, Some(&req), &out, "msm");
+  if cls == "panic" || cls == "hang" {
+    return;
+  }
+  let n = searchlite_core::api::query::parse_query(&text).terms.len();
+  let (spec, modelled) = match &item["spec"] {
+    Value::Number(v) => (json!({"value": v}), true),
+    Value::String(p) => {
+      let body = p.strip_suffix('%').unwrap_or(p);
+      (json!({"pct": bytes_json(p)}), !p.ends_with('%') || n == 0 || msm_modelled(body))
+    }
+    _ => (Value::Null, false),
+  };
+  if !modelled {
+    s.count("msm.syntax-not-modelled");
+    return;
+  }
+  let m = drv.call("C16", json!({"op": "msm", "spec": spec, "n": n, "and": item["op"] == json!("and")}));
+  let sub = single(case, item);
+  if m["ok"] != json!(true) {
+    s.disagree("msm.driver", &sub, out.brief(), m);
+    return;
+  }
+  s.count(&format!("msm.model-{}", m["cls"].as_str().unwrap_or("?")));
+  if m["cls"].as_str() != Some(cls) {
+    s.disagree("msm.class", &sub, out.brief(), m);
+  }
+}
+
+// ---------------------------------------------------------------- stream: planner leaves
+
+/// replace the textual nodes of the model query by parsed ones (real `parse_query`)
+fn resolve_model_query(m: &Value) -> Value {
+  let term = |t: &searchlite_core::api::query::QueryTerm| json!([t.field.clone(), t.term.clone()]);
+  match m["t"].as_str() {
+    Some("qs_text") => {
+      let p = searchlite_core::api::query::parse_query(m["text"].as_str().unwrap_or(""));
+      json!({"t": "qs", "terms": p.terms.iter().map(term).collect::<Vec<_>>(), "nots": p.not_terms.iter().map(term).collect::<Vec<_>>(), "fields": m["fields"].clone()})
+    }
+    Some("mm_text") => {
+      let p = searchlite_core::api::query::parse_query(m["text"].as_str().unwrap_or(""));
+      json!({"t": "mm", "kind": m["kind"].clone(), "terms": p.terms.iter().map(|t| t.term.clone()).collect::<Vec<_>>(),
+             "nots": p.not_terms.iter().map(|t| t.term.clone()).collect::<Vec<_>>(), "fields": m["fields"].clone()})
+    }
+    Some("bool") => {
+      let f = |k: &str| Value::Array(m[k].as_array().cloned().unwrap_or_default().iter().map(resolve_model_query).collect());
+      json!({"t": "bool", "must": f("must"), "should": f("should"), "must_not": f("must_not")})
+    }
+    Some("dis_max") => json!({"t": "dis_max", "queries": m["queries"].as_array().cloned().unwrap_or_default().iter().map(resolve_model_query).collect::<Vec<_>>()}),
+    Some("fs") => json!({"t": "fs", "q": resolve_model_query(&m["q"])}),
+    _ => m.clone(),
+  }
+}
+
+/// term keys of one (field, term) under exact expansion, from the REAL analyzers
+/// (`SchemaAnalyzers` / `FieldKind` cannot be named outside the crate: used through inference)
+macro_rules! real_keys {
+  ($schema:expr, $analyzers:expr, $field:expr, $term:expr) => {{
+    let (field, term): (&str, &str) = ($field, $term);
+    let kind = format!("{:?}", $schema.field_kind(field));
+    let mut out: Vec<String> = Vec::new();
+    if kind == "Text" {
+      let mut seen = std::collections::HashSet::new();
+      if let Some(an) = $analyzers.search_analyzer(field) {
+        for t in an.analyze(term) {
+          if seen.insert(t.text.clone()) {
+            out.push(format!("{field}:{}", t.text));
+          }
+        }
+      }
+    } else if kind == "Keyword" {
+      out.push(format!("{field}:{}", term.to_ascii_lowercase()));
+    }
+    out
+  }};
+}
+
+fn run_plan_item(b: &mut Built, drv: &mut Driver, case: &Value, item: &Value, s: &mut Summary) {
+  let mut req = json!({"query": item["query"].clone(), "limit": 5, "return_stored": false, "highlight_field": null});
+  if let Some(ex) = item["execution"].as_str() {
+    req["execution"] = json!(ex);
+  }
+  let dflt: Vec<String> = match item["fields"].as_array() {
+    Some(f) => {
+      req["fields"] = json!(f);
+      f.iter().filter_map(|x| x.as_str().map(|s| s.to_string())).collect()
+    }
+    None => b.schema.text_fields.iter().map(|f| f.name.clone()).collect(),
+  };
+  let out = run_text(b, &req.to_string());
+  let cls = judge(s, case, item, Some(&req), &out, "plan");
+  if cls == "hang" {
+    return;
+  }
+  let sub = single(case, item);
+  let mq = resolve_model_query(&item["model"]);
+  let first = drv.call("C16", json!({"op": "plan", "dflt": dflt, "q": mq, "keys": []}));
+  if first["ok"] != json!(true) {
+    s.disagree("plan.driver", &sub, out.brief(), first);
+    return;
+  }
+  let Ok(analyzers) = b.schema.build_analyzers() else { return };
+  let mut keys: Vec<Value> = Vec::new();
+  let mut seen = std::collections::BTreeSet::new();
+  for a in first["asked"].as_array().cloned().unwrap_or_default() {
+    let (f, t) = (a[0].as_str().unwrap_or("").to_string(), a[1].as_str().unwrap_or("").to_string());
+    if seen.insert((f.clone(), t.clone())) {
+      let ks = real_keys!(b.schema, analyzers, &f, &t);
+      keys.push(json!([f, t, "exact", ks]));
+    }
+  }
+  let m = drv.call("C16", json!({"op": "plan", "dflt": dflt, "q": mq, "keys": keys}));
+  if m["ok"] != json!(true) {
+    s.disagree("plan.driver", &sub, out.brief(), m);
+    return;
+  }
+  let verdict = m["verdict"].as_str().unwrap_or("?");
+  s.count(&format!("plan.model-{verdict}"));
+  s.add("plan.leaves", m["leaf_count"].as_u64().unwrap_or(0));
+  if m["functional"] != m["slots_disjoint"] {
+    s.disagree("plan.model-invariant", &sub, out.brief(), m.clone());
+  }
+  let real = match &out {
+    Out::Panic { msg, .. } if msg.contains("Inconsistent leaf for term key") => "inconsistent-leaf",
+    Out::Panic { msg, .. } if msg.contains("leaf index") || msg.contains("leaf_count") => "leaf-out-of-range",
+    Out::Panic { .. } => "other-panic",
+    Out::Ok(_) => "fine",
+    _ => "error",
+  };
+  // the loop with the assertion runs once per segment, only when there are scored terms
+  let expected = if b.segments == 0 || m["qualified"].as_array().map(|a| a.is_empty()).unwrap_or(true) { "fine" } else { verdict };
+  if real != expected {
+    if expected == "inconsistent-leaf" && real == "fine" {
+      // either the assertion was repaired in the code or the model is wrong about this query:
+      // the canonical witness on the same index decides
+      let probe = json!({"query": "rust body:rust", "limit": 5, "return_stored": false, "highlight_field": null});
+      let repaired = !matches!(run_text(b, &probe.to_string()), Out::Panic { ref msg, .. } if msg.contains("Inconsistent leaf for term key"));
+      if repaired {
+        s.count("plan.assertion-absent-in-code");
+        return;
+      }
+    }
+    s.disagree("plan.assertion-verdict", &sub, json!({"real": real, "outcome": out.brief(), "segments": b.segments}), m);
+  }
+}
+
+// ---------------------------------------------------------------- stream: isolated (child process)
+
+/// An allocation failure (`with_capacity(n)` / `vec![x; n]` with a request-supplied n) aborts
+/// the process: no unwinding, `catch_unwind` never sees it.  Requests with one huge size
+/// parameter therefore run in a child `slh C16 --replay <file>`; the parent classifies the
+/// child's exit.  ok | error | panic | hang come back through the child's summary.
+fn run_isolated_item(case: &Value, item: &Value, s: &mut Summary) {
+  let mut sub = single(case, item);
+  sub["kind"] = json!("req");
+  let mut reported = single(case, item);
+  reported["kind"] = json!("isolated");
+  let dir = scratch();
+  let inp = dir.path().join("case.json");
+  let outp = dir.path().join("out.json");
+  if std::fs::write(&inp, json!({"case": sub}).to_string()).is_err() {
+    return;
+  }
+  let exe = match std::env::current_exe() {
+    Ok(e) => e,
+    Err(_) => return,
+  };
+  let child = std::process::Command::new(exe)
+    .args(["C16", "--replay", inp.to_str().unwrap_or(""), "--out", outp.to_str().unwrap_or("")])
+    .env_remove("VERIF_C16_TRACE")
+    .env("VERIF_JOBS", "1")
+    .stdin(std::process::Stdio::null())
+    .stdout(std::process::Stdio::null())
+    .stderr(std::process::Stdio::piped())
+    .spawn();
+  let Ok(mut child) = child else {
+    s.count("isolated.spawn-failed");
+    return;
+  };
+  let t0 = std::time::Instant::now();
+  let status = loop {
+    match child.try_wait() {
+      Ok(Some(st)) => break Some(st),
+      Ok(None) if t0.elapsed() > Duration::from_secs(60) => {
+        let _ = child.kill();
+        let _ = child.wait();
+        break None;
+      }
+      Ok(None) => std::thread::sleep(Duration::from_millis(20)),
+      Err(_) => break None,
+    }
+  };
+  let mut stderr = String::new();
+  if let Some(mut e) = child.stderr.take() {
+    use std::io::Read;
+    let _ = e.read_to_string(&mut stderr);
+  }
+  let label = item["param"].as_str().unwrap_or("?");
+  let summary: Option<Value> = std::fs::read_to_string(&outp).ok().and_then(|t| serde_json::from_str(&t).ok());
+  match (status, summary) {
+    (Some(st), Some(sum)) if st.success() => {
+      // the child ran the request in-process: take over its verdicts
+      s.case(&reported, true);
+      let fs = sum["failures"].as_array().cloned().unwrap_or_default();
+      if fs.is_empty() {
+        let cls = sum["distribution"].as_object().and_then(|d| d.keys().find(|k| k.starts_with("huge.")).cloned()).unwrap_or_else(|| "huge.?".into());
+        s.count(&format!("isolated.{}", cls.trim_start_matches("huge.")));
+      }
+      for f in fs {
+        s.count("isolated.panic-or-hang");
+        // the panic site of a size problem is inside std: the parameter names the input class
+        let sig = format!("{}@{label}", f["sig"].as_str().unwrap_or("?"));
+        s.fail(&sig, f["what"].as_str().unwrap_or(""), &reported, f["observed"].clone());
+      }
+    }
+    (st, _) => {
+      s.case(&reported, true);
+      s.count("isolated.process-died");
+      let first = stderr.lines().next().unwrap_or("").to_string();
+      let why = if first.contains("memory allocation of") { "alloc" } else if first.contains("stack overflow") || stderr.contains("stack overflow") { "stack-overflow" } else if st.is_none() { "timeout" } else { "died" };
+      s.fail(
+        &format!("abort.{why}.{label}"),
+        "the process running IndexReader::search was killed (no unwinding: abort)",
+        &reported,
+        json!({"exit": st.map(|x| format!("{x:?}")), "stderr": stderr.chars().take(300).collect::<String>()}),
+      );
+    }
+  }
+}
+
+// ---------------------------------------------------------------- the property
+
+fn case_of(rng: &mut Rng, kind: &str, min_docs: usize) -> Value {
+  let schema = gen::schema(rng);
+  let commits = gen::commits(rng, &schema, min_docs);
+  json!({"kind": kind, "schema": schema, "commits": commits, "mem": rng.chance(5, 6), "items": []})
+}
+
+impl Prop for C16 {
   fn id(&self) -> &'static str {
     "C16"
   }
   fn rule(&self) -> &'static str {
-    "stub"
+    "case = random small index (text/keyword/numeric/nested schema, 0-3 commits, deletions, in-memory or filesystem) + 8-12 requests of one stream: structured random requests (all query node types, filters, sorts, 20 aggregation shapes incl. pipelines, highlight, collapse, suggest, rescore, fuzzy, huge numbers, regex/wildcard metacharacters, deep trees, scripts), tree- and character-level mutations of such requests (multi-byte characters, extreme numbers, truncation, deep nesting), cursor strings (real next_cursor, edited, random hex, odd lengths, non-ASCII at even/odd offsets) on score and field sorts, script_score scripts from an expression grammar plus malformed variants, minimum_should_match specs, and planner-class queries with repeated terms; every request runs in its own thread under catch_unwind with a 5 s watchdog, debug assertions on. A request is non-trivial when it deserialises and reaches IndexReader::search (distinct by index+request JSON). Exploration, not proof: the blanket claim rests on this stream."
   }
-  fn count(&self, _tier: Tier) -> usize {
-    0
+  fn count(&self, tier: Tier) -> usize {
+    tier.pick(900, 24_000)
   }
-  fn gen(&self, _rng: &mut Rng, _tier: Tier, _i: usize) -> Value {
-    json!(null)
+  fn gen(&self, rng: &mut Rng, _tier: Tier, i: usize) -> Value {
+    // VERIF_C16_ONLY=isolated: exploration knob (every case from the isolated stream)
+    if i % 36 == 35 || std::env::var("VERIF_C16_ONLY").as_deref() == Ok("isolated") {
+      // one huge size parameter per request, each in a child process
+      let mut c = case_of(rng, "isolated", 3);
+      let n = 3;
+      c["items"] = Value::Array(
+        (0..n)
+          .map(|_| {
+            // only sizes whose allocation fails at once (2^40 elements) or overflows: a size the
+            // allocator grants (2^32) would make the child fill tens of GB
+            let huge = *rng.pick(&[1u64 << 40, 1u64 << 50, u64::MAX, i64::MAX as u64]);
+            let (label, req) = gen::huge_param_request(rng, huge);
+            json!({"stream": "huge", "param": label, "req": req})
+          })
+          .collect(),
+      );
+      return c;
+    }
+    match i % 12 {
+      0..=3 => {
+        let mut c = case_of(rng, "req", 0);
+        let n = 8 + rng.below(5);
+        c["items"] = Value::Array(
+          (0..n)
+            .map(|_| {
+              let mut r = gen::request(rng);
+              gen::sanitize(&mut r);
+              json!({"stream": "structured", "req": r})
+            })
+            .collect(),
+        );
+        c
+      }
+      4..=6 => {
+        let mut c = case_of(rng, "req", 0);
+        let n = 8 + rng.below(5);
+        c["items"] = Value::Array(
+          (0..n)
+            .map(|_| {
+              let mut r = gen::request(rng);
+              if rng.chance(2, 3) {
+                let mut budget = 1 + rng.below(3) as i32;
+                for _ in 0..8 {
+                  gen::mutate_tree(rng, &mut r, &mut budget);
+                }
+                gen::sanitize(&mut r);
+                json!({"stream": "mutated-tree", "req": r})
+              } else {
+                gen::sanitize(&mut r);
+                let raw = gen::mutate_text(rng, &r.to_string());
+                let mut parsed: Option<Value> = serde_json::from_str::<Value>(&raw).ok();
+                let changed = parsed.as_mut().map(gen::sanitize).unwrap_or(false);
+                match parsed {
+                  Some(v) if changed => json!({"stream": "mutated-text", "raw": v.to_string()}),
+                  _ => json!({"stream": "mutated-text", "raw": raw}),
+                }
+              }
+            })
+            .collect(),
+        );
+        c
+      }
+      7 | 8 => {
+        let mut c = case_of(rng, "cursor", 4);
+        let n = 10 + rng.below(4);
+        c["items"] = Value::Array(
+          (0..n)
+            .map(|_| {
+              let q = match rng.below(3) {
+                0 => json!({"type": "match_all"}),
+                1 => json!({"type": "term", "field": "body", "value": *rng.pick(&["rust", "search", "über"])}),
+                _ => json!("rust engine"),
+              };
+              let mut base = json!({"query": q, "limit": 1 + rng.below(3)});
+              match rng.below(6) {
+                0 => base["sort"] = json!([{"field": "_score", "order": "desc"}]),
+                1 => base["sort"] = json!([{"field": "n", "order": "asc"}]),
+                2 => base["sort"] = json!([{"field": "tag"}, {"field": "n", "order": "desc"}]),
+                3 => base["sort"] = json!([{"field": "x", "order": "desc"}, {"field": "_score"}]),
+                _ => {}
+              }
+              json!({"base": base, "recipe": gen::cursor_recipe(rng)})
+            })
+            .collect(),
+        );
+        c
+      }
+      9 => {
+        let mut c = case_of(rng, "script", 1);
+        let n = 10 + rng.below(4);
+        c["items"] = Value::Array(
+          (0..n)
+            .map(|_| {
+              let params = match rng.below(3) {
+                0 => json!({"p": (rng.range(-40, 400) as f64) / 8.0, "w_1": 2.0}),
+                1 => json!({"p": 1e300}),
+                _ => Value::Null,
+              };
+              json!({"script": gen::script(rng), "params": params})
+            })
+            .collect(),
+        );
+        c
+      }
+      10 => {
+        let mut c = case_of(rng, "msm", 1);
+        let n = 10;
+        c["items"] = Value::Array(
+          (0..n)
+            .map(|_| {
+              let nt = rng.below(5);
+              let text = (0..nt).map(|_| *rng.pick(&["rust", "search", "engine", "fast", "-lite", "über"])).collect::<Vec<_>>().join(" ");
+              let op = *rng.pick(&[None, Some("and"), Some("or")]);
+              json!({"spec": gen::msm(rng), "text": text, "op": op})
+            })
+            .collect(),
+        );
+        c
+      }
+      _ => {
+        let mut c = case_of(rng, "plan", 1);
+        let text_fields: Vec<String> = c["schema"]["text_fields"].as_array().unwrap().iter().map(|f| f["name"].as_str().unwrap().to_string()).collect();
+        let n = 8 + rng.below(4);
+        c["items"] = Value::Array(
+          (0..n)
+            .map(|_| {
+              let (q, m) = gen::plan_query(rng, 2, &text_fields);
+              let mut it = json!({"query": q, "model": m});
+              if rng.chance(1, 4) {
+                it["fields"] = json!([rng.pick(&text_fields)]);
+              }
+              if rng.chance(1, 2) {
+                it["execution"] = json!(*rng.pick(&["bm25", "wand", "bmw"]));
+              }
+              it
+            })
+            .collect(),
+        );
+        c
+      }
+    }
   }
-  fn run_case(&self, _drv: &mut Driver, _case: &Value, _s: &mut Summary) {}
+
+  fn run_case(&self, drv: &mut Driver, case: &Value, s: &mut Summary) {
+    if case["kind"] == json!("isolated") {
+      s.count("case.isolated");
+      for item in case["items"].as_array().cloned().unwrap_or_default() {
+        run_isolated_item(case, &item, s);
+      }
+      return;
+    }
+    let mut b = match build(case) {
+      Ok(b) => b,
+      Err(e) => {
+        s.count("case.index-not-built");
+        s.notes.push(format!("index of a case could not be built: {e}"));
+        return;
+      }
+    };
+    let kind = case["kind"].as_str().unwrap_or("req");
+    s.count(&format!("case.{kind}"));
+    s.count(&format!("case.segments-{}", b.segments.min(3)));
+    let live = match run_text(&mut b, &json!({"query": {"type": "match_all"}, "limit": 1000, "return_stored": false, "highlight_field": null}).to_string()) {
+      Out::Ok(v) => v["hits"].as_array().map(|a| a.len()).unwrap_or(0),
+      _ => 0,
+    };
+    for item in case["items"].as_array().cloned().unwrap_or_default() {
+      match kind {
+        "cursor" => run_cursor_item(&mut b, drv, case, &item, s),
+        "script" => run_script_item(&mut b, drv, case, &item, live, s),
+        "msm" => run_msm_item(&mut b, drv, case, &item, s),
+        "plan" => run_plan_item(&mut b, drv, case, &item, s),
+        _ => run_req_item(&mut b, case, &item, s),
+      }
+    }
+  }
+
+  fn finish(&self, _tier: Tier, s: &mut Summary) {
+    s.exhaustive = false;
+    s.notes.push("exploration: requests are sampled; only the library API is driven (a panic under extern \"C\" aborts the process, the FFI entry point is covered by C26 with valid requests)".into());
+    s.notes.push("sizes that feed `vec![x; n]`/`with_capacity(n)` are kept <= 10^6: an allocation failure aborts the process and cannot be observed in-process".into());
+  }
 }
